@@ -1,7 +1,7 @@
 (* C07 - channel disconnect is always observed: no receiver hangs after the last sender; send fails
    after the last receiver.  Property theorems only (see C06.v for the conventions).
    Repaired defects whose pre-fix models are kept as witnesses: F6 (spsc coroutine receiver),
-   F7 and F7b (mpmc disconnect permit). *)
+   F7, F7b (mpmc disconnect permit) and F7c (mpmc Disconnected before drained). *)
 From Coq Require Import List Arith.
 Import ListNotations.
 Require MayV.Sync.ChanMpscModel MayV.Sync.ChanMpscInv MayV.Sync.ChanMpscThm.
@@ -92,46 +92,69 @@ Import MayV.Sync.ChanMpmcModel MayV.Sync.ChanMpmcInv MayV.Sync.ChanMpmcThm.
 (* (iii) every Sender gone and nobody with a step left: nobody is blocked in sem.wait(), a permit is
    left over (so every later call returns), and the permits cover the queued values (so the calls
    that follow drain the queue before they answer Disconnected) *)
-Theorem C07_mpmc_no_hang_after_disconnect : forall s, Reach true true s -> txp s = 0 -> quiescent s ->
+Theorem C07_mpmc_no_hang_after_disconnect : forall s, Reach true true true s -> txp s = 0 -> quiescent s ->
   (forall r, rp (Rv s r) <> WB) /\ 1 <= sv s /\ length (q s) <= sv s.
-Proof. exact mpmc_no_hang_after_disconnect. Qed.
+Proof. exact (mpmc_no_hang_after_disconnect true). Qed.
 Print Assumptions C07_mpmc_no_hang_after_disconnect.
 
-Theorem C07_mpmc_disconnected_only_without_senders : forall s r, Reach true true s ->
+Theorem C07_mpmc_disconnected_only_without_senders : forall s r, Reach true true true s ->
   rp (Rv s r) = YIdle -> rres (Rv s r) = RDisc -> txp s = 0.
-Proof. exact mpmc_disconnected_only_without_senders. Qed.
+Proof. exact (mpmc_disconnected_only_without_senders true). Qed.
 Print Assumptions C07_mpmc_disconnected_only_without_senders.
 
-Theorem C07_mpmc_call_after_disconnect : forall s r, Reach true true s -> rdead (Rv s r) = true ->
+Theorem C07_mpmc_call_after_disconnect : forall s r, Reach true true true s -> rdead (Rv s r) = true ->
   txp s = 0 /\ rp (Rv s r) <> W0 /\ rp (Rv s r) <> WB /\
   (rp (Rv s r) = YIdle -> match rres (Rv s r) with REmpty | RTimeout => False | _ => True end).
-Proof. exact mpmc_call_after_disconnect. Qed.
+Proof. exact (mpmc_call_after_disconnect true). Qed.
 Print Assumptions C07_mpmc_call_after_disconnect.
 
-Theorem C07_mpmc_disconnect_stable : forall s ac s', Reach true true s -> step true true s ac = Some s' -> txp s = 0 -> txp s' = 0.
-Proof. exact mpmc_disconnect_stable. Qed.
+Theorem C07_mpmc_disconnect_stable : forall s ac s', Reach true true true s -> step true true true s ac = Some s' -> txp s = 0 -> txp s' = 0.
+Proof. exact (mpmc_disconnect_stable true). Qed.
 Print Assumptions C07_mpmc_disconnect_stable.
 
 (* (iv) *)
-Theorem C07_mpmc_send_after_last_receiver : forall s a, Reach true true s -> sdead (Sd s a) = true ->
+Theorem C07_mpmc_send_after_last_receiver : forall s a, Reach true true true s -> sdead (Sd s a) = true ->
   rxp s = 0 /\ (sp (Sd s a) = M0 \/ (sp (Sd s a) = SIdle /\ sres (Sd s a) = false)).
-Proof. exact mpmc_send_after_last_receiver. Qed.
+Proof. exact (mpmc_send_after_last_receiver true). Qed.
 Print Assumptions C07_mpmc_send_after_last_receiver.
+
+(* Disconnected is decided only when the queue is empty or every queued value is claimed by a permit
+   in flight (another receiver inside its call, or the last dropper about to post) ... *)
+Theorem C07_mpmc_disconnected_means_claimed : forall s r s', Reach true true true s -> step true true true s (RStep r) = Some s' ->
+  rp (Rv s r) <> YIdle -> rp (Rv s' r) = YIdle -> rres (Rv s' r) = RDisc ->
+  q s = [] \/ (sv s = 0 /\ length (q s) <= length (hold s) + length (rep s) + g1of s).
+Proof. exact mpmc_disconnected_means_claimed. Qed.
+Print Assumptions C07_mpmc_disconnected_means_claimed.
+
+(* ... so with nobody else inside a call the receiver has drained the queue before it sees Disconnected *)
+Theorem C07_mpmc_disconnected_means_drained : forall s r s', Reach true true true s -> step true true true s (RStep r) = Some s' ->
+  rp (Rv s r) <> YIdle -> rp (Rv s' r) = YIdle -> rres (Rv s' r) = RDisc ->
+  hold s = [] -> rep s = [] -> dropper s = None -> q s = [].
+Proof. exact mpmc_disconnected_means_drained. Qed.
+Print Assumptions C07_mpmc_disconnected_means_drained.
+
+(* before 57db612 (F7c): try_recv answered Disconnected without looking again: a single receiver is told
+   Disconnected with a value queued, a permit available and everybody else idle *)
+Theorem C07_mpmc_drain_before_disconnect_refuted :
+  exists s, Reach true true false s /\ rp (Rv s 0) = YIdle /\ rres (Rv s 0) = RDisc /\ q s = [(0, 0)] /\ sv s = 1 /\
+            txp s = 0 /\ sp (Sd s 0) = SIdle /\ hold s = [] /\ rep s = [] /\ dropper s = None.
+Proof. exact mpmc_drain_before_disconnect_refuted. Qed.
+Print Assumptions C07_mpmc_drain_before_disconnect_refuted.
 
 (* before 9c5b86f (F7): single disconnect permit, 2 receivers *)
 Theorem C07_mpmc_no_hang_refuted_single_permit :
-  exists s, Reach false true s /\ stranded s 1 /\ rres (Rv s 0) = RDisc.
+  exists s, Reach false true false s /\ stranded s 1 /\ rres (Rv s 0) = RDisc.
 Proof. exact mpmc_no_hang_after_disconnect_refuted_single_permit. Qed.
 Print Assumptions C07_mpmc_no_hang_refuted_single_permit.
 
 (* before 9949d82 (F7b): the disconnect relied on a data permit that a receiver consumed with the value *)
 Theorem C07_mpmc_no_hang_refuted_data_permit :
-  exists s, Reach true false s /\ stranded s 1 /\ rres (Rv s 0) = ROk (0, 0).
+  exists s, Reach true false false s /\ stranded s 1 /\ rres (Rv s 0) = ROk (0, 0).
 Proof. exact mpmc_no_hang_after_disconnect_refuted_data_permit. Qed.
 Print Assumptions C07_mpmc_no_hang_refuted_data_permit.
 
 Example C07_mpmc_nonvacuous :
-  let s := run true true init (sch_f7 ++ [RStep 0; RStep 1; RStep 1; RStep 1; RStep 1; RStep 1]) in
+  let s := run true true false init (sch_f7 ++ [RStep 0; RStep 1; RStep 1; RStep 1; RStep 1; RStep 1]) in
   txp s = 0 /\ rp (Rv s 0) = YIdle /\ rp (Rv s 1) = YIdle /\ sp (Sd s 0) = SIdle /\ 1 <= sv s.
 Proof. exact quiescent_after_disconnect. Qed.
 End Mpmc.
